@@ -345,7 +345,8 @@ def check_wait_iterator(ck):
         ck.ob("C36.waititer", dcb, dcb.node, d + k == 1, "a finished input is either delivered to the running future or queued, exactly once (delivered=%d queued=%d)" % (d, k), construct="exit delivered=%d queued=%d" % (d, k))
     facts = must_facts(dcb.cfg)
     for nd, c in own_find(dcb, lambda x: method_call_on(x, "self", "_return_result")):
-        ck.ob("C36.waititer", dcb, c, holds(facts[nd.id], RUN, True) and holds(facts[nd.id], RUN + ".done()", False), "direct delivery only into an existing, pending running future")
+        exists = holds(facts[nd.id], RUN, True) or holds(facts[nd.id], RUN + " is None", False)
+        ck.ob("C36.waititer", dcb, c, exists and holds(facts[nd.id], RUN + ".done()", False), "direct delivery only into an existing, pending running future (a finished/cancelled next() future must not swallow the input)")
     # _return_result: chain into the running future, take-and-clear it, consume one index entry
     p = [x for x in rr.params() if x != "self"]
     chains = own_find(rr, lambda x: q.is_call(x, "chain_future"))
@@ -561,6 +562,7 @@ def _narrow_cancel_handler(root):
 
 
 MUTANTS = [
+    ("WaitIterator delivers into a cancelled next() future (`is not None` only; seeded C36-adv4)", _in(G, "WaitIterator._done_callback", replace_expr(lambda n: isinstance(n, ast.BoolOp), lambda n: parse_expr("self._running_future is not None"))), "C36.waititer"),
     ("multi fills the unfinished set while registering (seeded C36-adv2)", _in(G, "multi_future", lambda root: _merge_sets(root)), "C36.multi"),
     ("WaitIterator.done() ignores inputs that finished but were not yet delivered", _in(G, "WaitIterator.done", replace_expr(lambda n: isinstance(n, ast.BoolOp) and isinstance(n.op, ast.Or), lambda n: n.values[1])), "C36.waititer"),
     ("WaitIterator numbers positional inputs from 1", _in(G, "WaitIterator.__init__", replace_expr(lambda n: q.is_call(n, "enumerate"), lambda n: ast.Call(func=n.func, args=n.args + [ast.Constant(value=1)], keywords=[]))), "C36.waititer"),
